@@ -44,6 +44,7 @@ def jobs(tier):
             js.append(dict(name="OB:append:%s:%s" % (a, b), fam="OB", prefix=["append", a, b], n=n))
     for mode in ("getskip", "iterate"):
         js.append(dict(name="RO:%s" % mode, fam="RO", mode=mode))
+    js = common.shard(js, "end", 3, lambda j: j["fam"] == "OB")
     return js
 
 
